@@ -186,3 +186,50 @@ func VerifC20Reconnect() {
 	vstub.WaitIdle()
 	vstub.Assert(vstub.LiveThreads("berty.tech/go-orbit-db/pubsub") == 0, "C20/C18 Close ends every monitor of the pairwise channel")
 }
+
+func init() {
+	verifHarnesses["VerifC20AfterClose"] = VerifC20AfterClose
+}
+
+// VerifC20AfterClose: the LIFECYCLE of the pairwise channel object: Connect, one
+// payload delivered, Close; then any two further calls out of Connect / Send /
+// Close on the same object.  Every call returns (an error is fine), nothing is
+// delivered after Close, and no monitor is left behind.
+func VerifC20AfterClose() {
+	self, other := peer.ID("self"), peer.ID("other")
+	em := &recEmitter{}
+	script := &vstub.ScriptedPubSub{LiveSubs: true, Always: []peer.ID{other}}
+	root, cancelRoot := context.WithCancel(context.Background())
+	c := &channels{selfID: self, emitter: em, logger: zap.NewNop(), subs: map[peer.ID]*channel{},
+		ipfs: &vstub.PubSubCoreAPI{PS: script}, ctx: root, cancel: cancelRoot}
+	ctx := context.Background()
+	if err := c.Connect(ctx, other); err != nil {
+		vstub.Fail("C20 Connect failed")
+		return
+	}
+	script.Push(&vstub.Msg{Sender: other, Body: []byte("before")})
+	vstub.WaitIdle()
+	vstub.Assert(len(em.got) == 1, "C20 a payload of the remote peer is delivered exactly once")
+	_ = c.Close()
+	vstub.WaitIdle()
+	delivered := len(em.got)
+	for k := 0; k < 2; k++ {
+		switch vstub.NdChoice("after-close", 3) {
+		case 0:
+			cctx, cancel := context.WithCancel(ctx)
+			_ = c.Connect(cctx, other) // refused or accepted: it must return
+			cancel()
+		case 1:
+			_ = c.Send(ctx, other, []byte("late"))
+		case 2:
+			_ = c.Close()
+		}
+		vstub.WaitIdle()
+	}
+	vstub.Cover("calls-after-close-returned")
+	_ = c.Close()
+	cancelRoot()
+	vstub.WaitIdle()
+	vstub.Assert(len(em.got) == delivered, "C20 nothing is delivered to the emitter after Close")
+	vstub.Assert(vstub.LiveThreads("berty.tech/go-orbit-db/pubsub") == 0, "C20/C18 no monitor of the pairwise channel is left after Close and later calls")
+}
